@@ -379,15 +379,38 @@ func (h *histRun) connect(ver string) *WSClient {
 	rc.RootErrorKeeps = func(rid string, t int64) (bool, bool) {
 		name, _ := ridName(rid)
 		name = strings.Replace(name, "{cid}", cl.CID, -1)
-		// the most recent access answer for this connection and resource
+		// the access answers for this connection and resource since the last
+		// full quiescent point (the most recent one if there is none): several
+		// checks can be in flight (re-checks after triggers), and the request
+		// may have been decided by any of them
+		var lastQ int64
+		for _, q := range h.qpoints {
+			if q < t {
+				lastQ = q
+			}
+		}
+		grants, others := 0, 0
 		var last *BusReq
 		for _, r := range h.g.Bus.Reqs() {
-			if r.Kind == "access" && r.CID == cl.CID && r.Name == name && r.Done && (last == nil || r.AnsT > last.AnsT) {
+			if r.Kind != "access" || r.CID != cl.CID || r.Name != name || !r.Done {
+				continue
+			}
+			if last == nil || r.AnsT > last.AnsT {
 				last = r
+			}
+			if r.AnsT > lastQ {
+				if r.Outcome == "reply" && bytes.Contains(r.Reply, []byte(`"get":true`)) {
+					grants++
+				} else {
+					others++
+				}
 			}
 		}
 		if last == nil {
 			return false, false
+		}
+		if grants > 0 && others > 0 {
+			return false, false // ambiguous: range accounting, resolved by the hook snapshot
 		}
 		if last.Outcome == "reply" && bytes.Contains(last.Reply, []byte(`"get":true`)) {
 			return true, true // access granted: the error is the resource's own, the subscription stays
